@@ -619,7 +619,7 @@ CLASS_OWNERS = {
     'chmod_zero': ('C01', 'C11'), 'listing_includes_links': ('C01', 'C08'), 'empty_lines_noop': ('C06',),
     'sym_kind_specific_clauses': ('C11',), 'sym_malformed': ('C11',), 'moved_link_rel_stale': ('C10',), 'link_to_own_dir': ('C10',),
     'contents_first_ignores_filter': ('C08',), 'contents_first_min_depth_order': ('C08',),
-    'readlink_msg_names_target': ('C20',), 'write_all_existing_skipped': ('C20',), 'readlink_abs_suffix': ('C20',), 'no_dir_no_file_exists': ('C20',), 'is_symlink_wrong_name': ('C20',), 'symlink_existing_skipped': ('C20',),
+    'readlink_msg_names_target': ('C20',), 'write_all_existing_skipped': ('C20',), 'readlink_abs_suffix': ('C20',), 'no_dir_no_file_exists': ('C20',), 'is_symlink_wrong_name': ('C20',), 'symlink_existing_skipped': ('C20',), 'macro_double_resolution': ('C20',), 'copyfile_non_utf8': ('C20',),
 }
 
 def inv_of_dump(raw):
